@@ -34,6 +34,7 @@ type Engine struct {
 	UFns        map[string]*spec.SpecFn
 	GhostFields map[string]string
 	Census      []*spec.Census
+	Regexes     []*RegexDecl
 	guards      map[string]*guardInfo
 	monitors    map[string][]*spec.Monitor
 	pendGuards  []*spec.Guard
@@ -175,6 +176,9 @@ func (e *Engine) addFile(sf *spec.File, pkg *types.Package) {
 		}
 	}
 	e.Census = append(e.Census, sf.Census...)
+	for _, r := range sf.Regexes {
+		e.Regexes = append(e.Regexes, &RegexDecl{Global: r.Global, Spec: r.Spec, Props: r.Props, Pkg: r.Pkg, File: r.File, Line: r.Line})
+	}
 }
 
 // qualify turns a short target into the canonical key: "(*T).M" -> "(*pkg/path.T).M", "F" -> "pkg/path.F".
@@ -214,10 +218,10 @@ func (e *Engine) specError(c spec.Clause, err error) {
 }
 
 // findPackage resolves a package *name* as imported by pkg (or any loaded package with that name).
-func (e *Engine) findPackage(from *types.Package, name string) *types.Package {
+func (e *Engine) findPackage(from *types.Package, name string, member string) *types.Package {
 	if from != nil {
 		for _, imp := range from.Imports() {
-			if imp.Name() == name {
+			if imp.Name() == name && (member == "" || imp.Scope().Lookup(member) != nil) {
 				return imp
 			}
 		}
@@ -227,8 +231,8 @@ func (e *Engine) findPackage(from *types.Package, name string) *types.Package {
 	}
 	var best *types.Package
 	for path, p := range e.TypesPkgs {
-		if p.Name() == name {
-			if best == nil || len(path) < len(best.Path()) {
+		if p.Name() == name && (member == "" || p.Scope().Lookup(member) != nil) {
+			if best == nil || len(path) < len(best.Path()) || (len(path) == len(best.Path()) && path < best.Path()) {
 				best = p
 			}
 		}
@@ -355,3 +359,5 @@ func (e *Engine) FuncByKey(key string) *ssa.Function {
 }
 
 var _ = ast.Inspect
+
+func (e *Engine) allFuncs() map[*ssa.Function]bool { return ssautil.AllFunctions(e.Prog) }
